@@ -278,6 +278,7 @@ func init() {
 		r.floor("C15/lua-sensitivity", 8)
 		wireBeColumn(wc, r, "C15")
 		wireEveryMatchField(w, wc, r, "C15", []string{"lua"})
+		wireEmitOnceKeys(w, wc, r, "C15")
 		wireTemplateTaint(w, wc, r, "C15", []string{"lua"})
 		wireBracketBalance(w, wc, r, "C15", map[string]bool{"code": true, "test": true, "only-lua": true})
 		wireLuaSizes(wc, r)
